@@ -25,6 +25,13 @@ CHECKS.update({
             "Bin-edge cases within 1e-7 are excluded as borderline; tolerance 1e-9 on arcs.", "6/C19"),
 })
 
+CHECKS.update({
+    "C17": ("icontract postconditions with OLD snapshots on JokerSamples methods + RV-curve comparison via get_orbit",
+            "Exploration: seeded tables (sizes, signs of K, angle ranges/units, metadata) driven through every listed "
+            "operation; each call judged by a postcondition, wrap_K/get_t0 additionally through the reconstructed RV curve.",
+            "Trusts twobody's KeplerOrbit for the curve checks; tables are sampled.", "6/C17"),
+})
+
 NOT_YET = {
 }
 
